@@ -1,6 +1,7 @@
 from __future__ import annotations
 
 import re
+from math import isfinite
 from dataclasses import dataclass, field
 from enum import Enum, auto
 from typing import TYPE_CHECKING, Any, Literal
@@ -99,12 +100,31 @@ class SigmaCorrelationConditionOperator(Enum):
         return {op.name.lower() for op in cls}
 
 
+def _condition_number(value: Any) -> int | float:
+    """Number of a correlation condition as given: integral values as int, fractions as float."""
+    if isinstance(value, bool):
+        raise TypeError("Boolean is not a number")
+    if isinstance(value, (int, float)):
+        number: int | float = value
+    else:
+        try:
+            number = int(value)
+        except ValueError:
+            number = float(value)
+    if isinstance(number, float):
+        if not isfinite(number):
+            raise ValueError("Number must be finite")
+        if number.is_integer():
+            number = int(number)
+    return number
+
+
 @dataclass
 class SigmaCorrelationCondition:
     op: SigmaCorrelationConditionOperator
-    count: int
+    count: int | float
     fieldref: str | list[str] | None = field(default=None)
-    percentile: int | None = field(default=None)
+    percentile: int | float | None = field(default=None)
     source: SigmaRuleLocation | None = field(default=None, compare=False)
 
     @classmethod
@@ -136,7 +156,7 @@ class SigmaCorrelationCondition:
             if op in d:
                 cond_op = SigmaCorrelationConditionOperator[op.upper()]
                 try:
-                    cond_count = int(d[op])
+                    cond_count = _condition_number(d[op])
                 except (ValueError, TypeError):
                     raise sigma_exceptions.SigmaCorrelationConditionError(
                         f"'{ d[op] }' is no valid Sigma correlation condition count", source=source
@@ -151,10 +171,10 @@ class SigmaCorrelationCondition:
 
         # Condition percentile (for value_percentile correlation type)
         try:
-            cond_percentile = int(d["percentile"])
+            cond_percentile: int | float | None = _condition_number(d["percentile"])
         except KeyError:
             cond_percentile = None
-        except ValueError:
+        except (ValueError, TypeError):
             raise sigma_exceptions.SigmaCorrelationConditionError(
                 f"'{ d['percentile'] }' is no valid Sigma correlation condition percentile",
                 source=source,
